@@ -28,7 +28,7 @@ func (oracleC02) Step(x *OCtx, t *Trans) []Violation {
 	}
 	// a response of the designated provider that arrives in time (up to and including the request's expiry block) is the
 	// one settlement of that request: it cannot be refused (a refusal leaves the fee to be refunded at expiry instead)
-	if a := t.Act; kind == "respond" && t.Res.Stateless == nil && t.Res.Panic == "" {
+	if a := t.Act; kind == "respond" && t.Res.Stateless == nil { // (a panic refuses the response as well; C20 reports the panic itself)
 		if r := t.Pre.Reqs[a.Req]; r != nil && t.Pre.ActiveByID[a.Req] && hexs(r.Provider) == hexs(a.Signer) && t.Pre.H <= r.ExpirationHeight {
 			x.Wit(fmt.Sprintf("C02:in-time-response-at-%d-blocks-before-expiry", r.ExpirationHeight-t.Pre.H))
 			if !t.Res.OK() {
